@@ -65,6 +65,9 @@ type l3Case struct {
 
 // halfSent is ready at once for the half-sent-head point (nothing can have arrived at the backend
 // yet) and never otherwise.
+// notJudged: the half-sent request ended without a response (see above).
+const notJudged = "\x00not-judged"
+
 func halfSent(c l3Case) <-chan struct{} {
 	ch := make(chan struct{})
 	if c.Point == "half-sent-head" {
@@ -156,6 +159,7 @@ type l3Result struct {
 	Viol      string
 	Harness   string
 	Retry     bool
+	NotJudged bool // half-sent-head: the connection ended without a response (not necessarily accepted before the signal)
 	ExitCode  int
 	ExitAfter time.Duration
 	Probes    int
@@ -251,17 +255,21 @@ func runL3(t testing.TB, c l3Case) (r l3Result) {
 				r.Harness = "cannot send the request: " + err.Error()
 				return
 			}
-			time.Sleep(30 * time.Millisecond) // let the proxy read what there is
+			time.Sleep(100 * time.Millisecond) // let the proxy accept the connection and read what there is
 			rest := []byte("X-Verif-Case: " + id + "\r\n\r\n")
 			go func() {
 				time.Sleep(time.Duration(c.ReleaseMs) * time.Millisecond) // ~ after the signal: it is sent right below
+				// Whether the proxy had already accepted this connection when the signal arrived cannot
+				// be observed from outside (a connection still in the listen backlog is reset when the
+				// listener closes, and that request was never "in flight" inside Helios). A connection
+				// that is closed without any response is therefore not judged; a response is.
 				if _, err := cc.C.Write(rest); err != nil {
-					readDone <- "the client could not send the rest of its request head after the signal: " + err.Error()
+					readDone <- notJudged
 					return
 				}
 				o, resp, e := cc.ReadHead("GET", time.Duration(c.ShutdownS+3)*time.Second)
 				if e != nil {
-					readDone <- "the client received no response: " + e.Error()
+					readDone <- notJudged
 					return
 				}
 				cc.Finish(o, resp, nil, time.Duration(c.ShutdownS+3)*time.Second)
@@ -328,7 +336,9 @@ func runL3(t testing.TB, c l3Case) (r l3Result) {
 		lab.CloseBarrier(ex)
 		select {
 		case v := <-readDone:
-			if v != "" {
+			if v == notJudged {
+				r.NotJudged = true
+			} else if v != "" {
 				r.Viol = fmt.Sprintf("request in flight (%s) when SIG%s arrived, backend finished it %d ms later (shutdown timeout %d s): %s", c.Point, c.Signal, c.ReleaseMs, c.ShutdownS, v)
 			}
 		case <-time.After(time.Duration(c.ShutdownS+4) * time.Second):
@@ -413,6 +423,13 @@ func TestC19Signals(t *testing.T) {
 			labels := []string{"signal=" + c.Signal, "point=" + c.Point, fmt.Sprintf("shutdown=%ds", c.ShutdownS)}
 			if c.Over {
 				labels = append(labels, "request-outlasts-timeout")
+			}
+			if c.Point == "half-sent-head" {
+				if res[i].NotJudged {
+					labels = append(labels, "half-sent-head-not-judged")
+				} else {
+					labels = append(labels, "half-sent-head-answered")
+				}
 			}
 			if c.Second != "" {
 				labels = append(labels, "second-signal")
